@@ -30,7 +30,7 @@ import (
 )
 
 // MaxTasks is the maximum number of simulator tasks in one run.
-const MaxTasks = 16
+const MaxTasks = 2048
 
 // StreamCap is the capacity of one decision stream.
 const StreamCap = 1 << 15
@@ -80,10 +80,11 @@ type Stats struct {
 	Decisions        int64  // scheduler decisions taken
 	TraceHash        uint64 // FNV-1a over (from,to,site) of all switches
 	MaxConcurrent    int32
-	PermVisits       int64  // map-range visits under simulator control
-	PermNontrivial   int64  // ... with >= 2 keys
-	PermNonIdentity  int64  // ... iterated in a non-canonical order
-	PermBig          int64  // ... with >= 9 keys (several buckets in a Go map)
+	Spawned          int64 // goroutines started by the code under test that became tasks
+	PermVisits       int64 // map-range visits under simulator control
+	PermNontrivial   int64 // ... with >= 2 keys
+	PermNonIdentity  int64 // ... iterated in a non-canonical order
+	PermBig          int64 // ... with >= 9 keys (several buckets in a Go map)
 	PermMaxKeys      int64
 	PermHash         uint64 // FNV-1a over (site, applied order) of all visits
 	ClockReads       int64
@@ -116,6 +117,7 @@ var (
 	tblock [MaxTasks]uintptr
 	tholds [MaxTasks]int32
 	tbsite [MaxTasks]int32 // statement site at which the task blocked
+	tgroup [MaxTasks]int32 // top-level task this task was (transitively) started by
 	tpanic [MaxTasks]interface{}
 	tstack [MaxTasks]string
 	tfn    [MaxTasks]func()
@@ -307,7 +309,11 @@ func Y(site int32) {
 
 //go:norace
 func abort(kind string) {
-	detail := fmt.Sprintf("task=%d site=%d steps=%d states=%v blockedOn=%v", cur, lastSite, st.Steps, tstate[:ntasks], tblock[:ntasks])
+	nshow := ntasks
+	if nshow > 24 {
+		nshow = 24
+	}
+	detail := fmt.Sprintf("task=%d of %d site=%d steps=%d states=%v blockedOn=%v", cur, ntasks, lastSite, st.Steps, tstate[:nshow], tblock[:nshow])
 	active = false
 	if abortHook != nil {
 		abortHook(kind, detail)
@@ -333,17 +339,31 @@ func hashSwitch(from, to, site int32) {
 //go:norace
 func decide(mustLeave bool, why int32) {
 	st.Decisions++
-	var run [MaxTasks]int32
+	var run [64]int32
 	n := 0
 	if !mustLeave {
 		run[0] = cur
 		n = 1
 	}
-	for i := int32(0); i < ntasks; i++ {
-		if i != cur && tstate[i] == stRunnable {
-			run[n] = i
-			n++
+	for i := int32(0); i < ntasks && n < len(run); i++ {
+		if i == cur || tstate[i] != stRunnable {
+			continue
 		}
+		if coarse && cur >= 0 {
+			// Steps are atomic: while a step is in progress (its task blocked on, or
+			// one of its helper goroutines ended inside, the code under test) only
+			// goroutines started by that step may run; at an explicit Yield only
+			// top-level tasks are candidates.
+			if why == 3 || (why == 4 && tgroup[cur] != cur) {
+				if tgroup[i] != tgroup[cur] {
+					continue
+				}
+			} else if tgroup[i] != i {
+				continue
+			}
+		}
+		run[n] = i
+		n++
 	}
 	if int32(n) > st.MaxConcurrent {
 		st.MaxConcurrent = int32(n)
@@ -403,6 +423,10 @@ func waitTurn(me int32) {
 
 //go:norace
 func edge(why int32) {
+	if coarse {
+		// Steps are atomic: no preemption at lock edges (blocking still switches).
+		return
+	}
 	if next(&edges) != 0 {
 		decide(false, why)
 	}
@@ -414,7 +438,7 @@ func edge(why int32) {
 //
 //go:norace
 func Lock(m *sync.Mutex) {
-	if !active || coarse {
+	if !active {
 		m.Lock()
 		return
 	}
@@ -435,7 +459,7 @@ func Lock(m *sync.Mutex) {
 //go:norace
 func Unlock(m *sync.Mutex) {
 	m.Unlock()
-	if !active || coarse {
+	if !active {
 		return
 	}
 	wake(uintptr(unsafe.Pointer(m)))
@@ -492,7 +516,7 @@ func rwEntry(m *sync.RWMutex) int32 {
 
 //go:norace
 func RLock(m *sync.RWMutex) {
-	if !active || coarse {
+	if !active {
 		m.RLock()
 		return
 	}
@@ -513,7 +537,7 @@ func RLock(m *sync.RWMutex) {
 //go:norace
 func RUnlock(m *sync.RWMutex) {
 	m.RUnlock()
-	if !active || coarse {
+	if !active {
 		return
 	}
 	e := rwEntry(m)
@@ -525,7 +549,7 @@ func RUnlock(m *sync.RWMutex) {
 
 //go:norace
 func WLock(m *sync.RWMutex) {
-	if !active || coarse {
+	if !active {
 		m.Lock()
 		return
 	}
@@ -554,7 +578,7 @@ func WLock(m *sync.RWMutex) {
 //go:norace
 func WUnlock(m *sync.RWMutex) {
 	m.Unlock()
-	if !active || coarse {
+	if !active {
 		return
 	}
 	e := rwEntry(m)
@@ -562,6 +586,134 @@ func WUnlock(m *sync.RWMutex) {
 	wake(uintptr(unsafe.Pointer(m)))
 	tholds[cur]--
 	edge(2)
+}
+
+// ---------------------------------------------------------------------------
+// sync.WaitGroup and sync.Once of the code under test. The model decides who
+// blocks; the real primitive is operated as well, so the race detector sees the
+// real happens-before edges (Done -> Wait, Do -> later Do).
+
+const maxWG = 64
+
+var (
+	wgAddr  [maxWG]uintptr
+	wgCount [maxWG]int64
+	nWG     int32
+
+	onceAddr  [maxWG]uintptr
+	onceState [maxWG]int32 // 0 new, 1 running, 2 done
+	onceOwner [maxWG]int32
+	nOnce     int32
+)
+
+//go:norace
+func wgEntry(w *sync.WaitGroup) int32 {
+	a := uintptr(unsafe.Pointer(w))
+	for i := int32(0); i < nWG; i++ {
+		if wgAddr[i] == a {
+			return i
+		}
+	}
+	if nWG >= maxWG {
+		abort("too-many-waitgroups")
+	}
+	i := nWG
+	nWG++
+	wgAddr[i] = a
+	wgCount[i] = 0
+	return i
+}
+
+// WGAdd is the replacement of (*sync.WaitGroup).Add.
+//
+//go:norace
+func WGAdd(w *sync.WaitGroup, n int) {
+	w.Add(n)
+	if !active {
+		return
+	}
+	e := wgEntry(w)
+	wgCount[e] += int64(n)
+	if wgCount[e] <= 0 {
+		wake(uintptr(unsafe.Pointer(w)))
+	}
+	if n < 0 {
+		edge(2)
+	}
+}
+
+// WGDone is the replacement of (*sync.WaitGroup).Done.
+//
+//go:norace
+func WGDone(w *sync.WaitGroup) { WGAdd(w, -1) }
+
+// WGWait is the replacement of (*sync.WaitGroup).Wait.
+//
+//go:norace
+func WGWait(w *sync.WaitGroup) {
+	if !active {
+		w.Wait()
+		return
+	}
+	e := wgEntry(w)
+	for wgCount[e] > 0 {
+		st.Blocked++
+		tstate[cur] = stBlocked
+		tblock[cur] = uintptr(unsafe.Pointer(w))
+		tbsite[cur] = lastSite
+		decide(true, 3)
+	}
+	w.Wait()
+}
+
+//go:norace
+func onceEntry(o *sync.Once) int32 {
+	a := uintptr(unsafe.Pointer(o))
+	for i := int32(0); i < nOnce; i++ {
+		if onceAddr[i] == a {
+			return i
+		}
+	}
+	if nOnce >= maxWG {
+		abort("too-many-onces")
+	}
+	i := nOnce
+	nOnce++
+	onceAddr[i] = a
+	onceState[i] = 0
+	return i
+}
+
+// OnceDo is the replacement of (*sync.Once).Do.
+//
+//go:norace
+func OnceDo(o *sync.Once, f func()) {
+	if !active {
+		o.Do(f)
+		return
+	}
+	e := onceEntry(o)
+	for onceState[e] == 1 && onceOwner[e] != cur {
+		st.Blocked++
+		tstate[cur] = stBlocked
+		tblock[cur] = uintptr(unsafe.Pointer(o))
+		tbsite[cur] = lastSite
+		decide(true, 3)
+	}
+	if onceState[e] == 1 && onceOwner[e] == cur {
+		// Recursive Do from inside f: the real Once deadlocks here.
+		abort(AbortDeadlock)
+	}
+	if onceState[e] == 0 {
+		onceState[e] = 1
+		onceOwner[e] = cur
+	}
+	// The real Once decides whether f runs (it may have completed before the
+	// scheduler was active); it never blocks here because the model has
+	// serialised the callers.
+	o.Do(f)
+	onceState[e] = 2
+	wake(uintptr(unsafe.Pointer(o)))
 }
 
 // Go is the replacement of a `go` statement in instrumented code: while the
@@ -582,6 +734,9 @@ func Go(fn func()) {
 	tholds[i] = 0
 	tpanic[i] = nil
 	tstack[i] = ""
+	tgroup[i] = tgroup[cur]
+	tdone[i] = make(chan struct{})
+	st.Spawned++
 	ntasks++
 	go taskMain(i)
 }
@@ -600,7 +755,7 @@ func taskMain(i int32) {
 		getFn(i)()
 	}()
 	finish(i)
-	close(tdone[i])
+	close(getDone(i))
 }
 
 //go:norace
@@ -641,8 +796,8 @@ func RunTasks(fns []func(), watchdog time.Duration) []TaskResult {
 		return nil
 	}
 	setup(fns)
-	for i := int32(0); i < MaxTasks; i++ {
-		tdone[i] = make(chan struct{})
+	for i := int32(0); i < n; i++ {
+		setDone(i, make(chan struct{}))
 	}
 	for i := int32(0); i < n; i++ {
 		go taskMain(i)
@@ -656,7 +811,7 @@ func RunTasks(fns []func(), watchdog time.Duration) []TaskResult {
 			break
 		}
 		select {
-		case <-tdone[i]:
+		case <-getDone(i):
 		case <-timer.C:
 			stuck()
 		}
@@ -681,6 +836,12 @@ func stuck() {
 func numTasks() int32 { return ntasks }
 
 //go:norace
+func setDone(i int32, c chan struct{}) { tdone[i] = c }
+
+//go:norace
+func getDone(i int32) chan struct{} { return tdone[i] }
+
+//go:norace
 func getResult(i int32) TaskResult { return TaskResult{Panic: tpanic[i], Stack: tstack[i]} }
 
 //go:norace
@@ -697,10 +858,13 @@ func setup(fns []func()) {
 	for i, f := range fns {
 		tfn[i] = f
 		tstate[i] = stRunnable
+		tgroup[i] = int32(i)
 	}
 	turn = -1
 	cur = -1
 	nRW = 0
+	nWG = 0
+	nOnce = 0
 	for i := range twaitW {
 		twaitW[i] = false
 	}
